@@ -3,6 +3,8 @@ CONSTANTS MaxItems = 2
  MaxSub = 1
  MaxBlocks = 1
  MaxDepth = 1
+ MaxLeaves = 99
+ Lean = FALSE
  Budget = 1
  IdOffs <- IdOffs3
  Rules = {"assume", "implies_intr", "substitution", "sorry", "subproof"}
